@@ -294,7 +294,7 @@ def gen_params(rnd, nmax=4):
     return n, opts
 
 
-def run_schedule(seed, rec, nmax=4, max_ticks=40, faults_max=10, quiet_ticks=0, sim_cls=RecSim, allow_restart=True, mismatch=0.0, inject=False, sim_cls_name=None, heal_at_end=False, rpc_names=('restart', 'shutdown', 'end_sync', 'end_sync'), procs=False, pev_rate=0.25, split_start=0.0):
+def run_schedule(seed, rec, nmax=4, max_ticks=40, faults_max=10, quiet_ticks=0, sim_cls=RecSim, allow_restart=True, mismatch=0.0, inject=False, sim_cls_name=None, heal_at_end=False, rpc_names=('restart', 'shutdown', 'end_sync', 'end_sync'), procs=False, pev_rate=0.25, split_start=0.0, removals=True):
     """ one generated cluster schedule; returns (sims, net, opts, n, info) """
     rnd = random.Random(seed)
     if sim_cls_name:
@@ -425,7 +425,7 @@ def run_schedule(seed, rec, nmax=4, max_ticks=40, faults_max=10, quiet_ticks=0, 
             cands = [s for s in sims if s.identifier not in net.down and s.k in started and s.known]
             if cands:
                 s = rnd.choice(cands); p = rnd.choice(s.known)
-                if s.truth[p]['state'] in (0, 100, 200) and rnd.random() < 0.04:
+                if removals and s.truth[p]['state'] in (0, 100, 200) and rnd.random() < 0.04:
                     # the (stopped) program is removed from the Supervisor configuration (update_numprocs / removeProcessGroup)
                     with watchdog(10): s.proc_removed(p)
                     rec.rec(sims, f'prm {s.k - 1} {p}'); info['prm'] = info.get('prm', 0) + 1
